@@ -102,56 +102,66 @@ impl<R: Read> GenomeIO<R> {
 
     /// Read next contig preserving raw format (including newlines)
     pub fn read_contig_raw(&mut self) -> io::Result<Option<(String, Contig)>> {
-        let reader = match &mut self.reader {
-            Some(r) => r,
-            None => return Ok(None),
-        };
-
-        let mut contig = Contig::new();
-
-        // Read ID line (starts with '>')
-        // Check if we have a buffered header from previous read
-        let header_line = if let Some(buffered) = self.next_header.take() {
-            buffered
-        } else {
-            self.buffer.clear();
-            let bytes_read = reader.read_until(b'\n', &mut self.buffer)?;
-            if bytes_read == 0 {
-                return Ok(None);
-            }
-            self.buffer.clone()
-        };
-
-        // Extract ID (skip '>' and trim whitespace)
-        let id_line = String::from_utf8_lossy(&header_line);
-        let id = id_line.trim_start_matches('>').trim().to_string();
-
-        // Read sequence data until next '>' or EOF
         loop {
-            self.buffer.clear();
-            let bytes_read = reader.read_until(b'\n', &mut self.buffer)?;
+            let reader = match &mut self.reader {
+                Some(r) => r,
+                None => return Ok(None),
+            };
 
-            if bytes_read == 0 {
-                // EOF reached
-                break;
+            let mut contig = Contig::new();
+
+            // Read ID line (starts with '>')
+            // Check if we have a buffered header from previous read
+            let header_line = if let Some(buffered) = self.next_header.take() {
+                buffered
+            } else {
+                self.buffer.clear();
+                let bytes_read = reader.read_until(b'\n', &mut self.buffer)?;
+                if bytes_read == 0 {
+                    return Ok(None);
+                }
+                self.buffer.clone()
+            };
+
+            // Extract ID (skip '>' and trim whitespace)
+            let id_line = String::from_utf8_lossy(&header_line);
+            let id = id_line.trim_start_matches('>').trim().to_string();
+
+            // Read sequence data until next '>' or EOF
+            let mut at_eof = false;
+            loop {
+                self.buffer.clear();
+                let bytes_read = reader.read_until(b'\n', &mut self.buffer)?;
+
+                if bytes_read == 0 {
+                    // EOF reached
+                    at_eof = true;
+                    break;
+                }
+
+                // Check if this is the start of a new contig
+                if !self.buffer.is_empty() && self.buffer[0] == b'>' {
+                    // Save this header for the next read
+                    self.next_header = Some(self.buffer.clone());
+                    break;
+                }
+
+                // Append sequence data
+                contig.extend_from_slice(&self.buffer);
             }
 
-            // Check if this is the start of a new contig
-            if !self.buffer.is_empty() && self.buffer[0] == b'>' {
-                // Save this header for the next read
-                self.next_header = Some(self.buffer.clone());
-                break;
+            if id.is_empty() || contig.is_empty() {
+                // An empty record (a blank line in front of a header, a header without
+                // sequence) is skipped.  Only the end of the input ends the iteration:
+                // returning None here would silently drop every record that follows.
+                if at_eof {
+                    return Ok(None);
+                }
+                continue;
             }
 
-            // Append sequence data
-            contig.extend_from_slice(&self.buffer);
+            return Ok(Some((id, contig)));
         }
-
-        if id.is_empty() || contig.is_empty() {
-            return Ok(None);
-        }
-
-        Ok(Some((id, contig)))
     }
 
     /// Internal implementation of contig reading with optional conversion
